@@ -25,7 +25,10 @@ def main():
         json.dump(jsonable(res), open(a.out, 'w'), indent=1)
         return 0
     payload = json.load(open(a.target))
-    mod = importlib.import_module(payload.get('replay_module') or 'rac.%s' % payload['property'])
+    modname = payload.get('replay_module') or 'rac.%s' % payload['property']
+    if (payload.get('call') or {}).get('probe') == 'public-frame':
+        modname = 'rac.frame_probe'
+    mod = importlib.import_module(modname)
     try:
         v = mod.replay(payload.get('call') or {})
     except Exception:
